@@ -175,7 +175,8 @@ class Ctx:
         self.cov["obligations"] = len(names)
         if not ok:
             self.notes["make_log_tail"] = out[-3000:]
-            m = re.search(r'File "\./([^"]+)", line (\d+)', out)
+            m = re.search(r'File "\./([^"]+)", line (\d+), characters [^\n]*\nError', out) or \
+                re.search(r'File "\./([^"]+)", line (\d+)', out)
             where = "%s:%s" % (m.group(1), m.group(2)) if m else "unknown"
             self.failed_obligations.append("build failed at " + where)
             self.cov["discharged"] = 0
